@@ -157,11 +157,18 @@ func gen(rng *rand.Rand, tier core.Tier, emit core.Emit) {
 				s := servers[i]
 				init = append(init, fmt.Sprintf("report|%s|10481|%s|%s|%d", s.addr, s.id, hexs("old"), i))
 			}
-			init = append(init, fmt.Sprintf("adv%d", retention+int64(rng.Intn(3))*256+int64(rng.Intn(2))*sec))
+			past := int64(rng.Intn(3))*256 + int64(rng.Intn(2))*sec
+			init = append(init, fmt.Sprintf("adv%d", retention+past))
 			victim := servers[rng.Intn(ns)]
 			refresher := fmt.Sprintf("report|%s|10481|%s|%s|9", victim.addr, victim.id, hexs("fresh"))
-			if rng.Intn(2) == 0 {
+			switch rng.Intn(5) {
+			case 0, 1:
 				refresher = fmt.Sprintf("renew|%s|%s", victim.id, victim.ip)
+			case 2:
+				// the refresh of a node whose clock lags (or of an operation that was long in flight): it stores a refresh time a
+				// few hundred nanoseconds after the cutoff of the pass (cutoff = start + past): after is after, by whatever margin
+				margin := []int64{256, 512, 768, 399872, 999936, -256, 0}[rng.Intn(7)]
+				refresher = fmt.Sprintf("call|update!%s/10481/6/9/%d!over", victim.addr, world.Epoch.UnixNano()+past+margin)
 			}
 			// place the whole refresh after the pass's k-th repository call (filter, remove, remove, …)
 			var ev []string
